@@ -103,6 +103,8 @@ def get_iter(interp, v, node=None):
             v.iterators = []
         v.iterators.append(it)
         return it
+    if isinstance(v, Opaque) and '__iter__' in v.attrs:
+        return v.attrs['__iter__']          # an external object iterated through its contract (e.g. a text file: its lines)
     if isinstance(v, SDeque):
         it = SrcIter(v.arr, v.hi, 'deque', origin=v.origin)
         it.pos = v.lo
